@@ -150,6 +150,21 @@ def fam_shared_locals(k, L):
     return build_lscr_raw(body, frb, frb, k, frb, 0, end, end)
 
 
+def fam_shared_locals_cancel(k, L, which="args"):
+    """as fam_shared_locals, but every record also carries a NEGATIVE count in another field (parameters or handler globals) of the
+    same magnitude: a guard that sums the counts before clamping sees 0 declared bytes (seeded change C10-m17)"""
+    tbl = struct.pack(">h", 1) * L
+    frb = 92 + len(tbl)
+    neg = -L if L <= 32768 else -32768
+    if which == "args":
+        rec = _frec(0, 0, 92, neg, 92, L, 92, 0, 92)
+    else:
+        rec = _frec(0, 0, 92, 0, 92, L, 92, neg, 92)
+    body = tbl + rec * k
+    end = 92 + len(body)
+    return build_lscr_raw(body, frb, frb, k, frb, 0, end, end)
+
+
 def fam_shared_code(k, c):
     """k function records that all name the SAME bytecode of c statements `set x = 1`: k*c instructions decoded (finding F103)"""
     code = b"\x41\x01\x52\x00" * c + b"\x01"
